@@ -85,6 +85,14 @@ package main
 //@   ensures [C18] ncalls("WriteFrame") == 1 && callarg("WriteFrame", 1, 0) == b && callarg("WriteFrame", 1, 1) == callres("NewFieldWriter", 1) && callarg("WriteFrame", 1, 2) == frame && result == callres("WriteFrame", 1)
 //@   ensures [C18] callseq("Uint32", 1) < callseq("WriteFrame", 1)
 
+// File names: full date and 24-hour time to the second, so two files get the same name
+// only if they are created within the same second.
+//@ func nextFileName
+//@   mode permissive
+//@   ensures [C18] ncalls("Format") == 1 && callarg("Format", 1, 1) == "2006_01_02T15_04_05" && ncalls("Now") == 1 && callarg("Format", 1, 0) == callres("Now", 1)
+//@   ensures [C18] ncalls("Sprintf") == 1 && callarg("Sprintf", 1, 0) == "%s.cptr" && len(callarg("Sprintf", 1, 1)) == 1 && unboxstr(callarg("Sprintf", 1, 1)[0]) == callres("Format", 1)
+//@   ensures [C18] ncalls("Join") == 1 && len(callarg("Join", 1, 0)) == 2 && callarg("Join", 1, 0)[0] == outDir && callarg("Join", 1, 0)[1] == callres("Sprintf", 1) && result == callres("Join", 1)
+
 //@ func nextFile
 //@   mode permissive
 //@   ensures [C18] ncalls("nextFileName") == 1 && callarg("nextFileName", 1, 0) == outDir && ncalls("newBufferedFile") == 1 && callarg("newBufferedFile", 1, 0) == callres("nextFileName", 1) && result0 == callres("newBufferedFile", 1).0 && result1 == callres("newBufferedFile", 1).1
